@@ -22,6 +22,7 @@ class Doc:
         self.word_flow = {} # word -> flow
         self.specials = []  # (offset, expected character)
         self.unk = []       # (name, in_maths) in source order
+        self.unk_ltadd = []  # indices into unk: uses inside an \\LTadd argument
         self.accented = []  # words whose first letter gets an accent
         self.defined = set()  # macros defined in the body
 
@@ -265,7 +266,11 @@ def construct(d, rng, depth, ctx):
         if 'unkd' in d.parts[-1]:
             d.unk.append(('\\unkd', False))
         d.add(rng.choice(['\n', '\n  ', ' ']))
+        in_add = 'LTadd' in d.parts[-2]
+        n0 = len(d.unk)
         sentence(d, rng, depth - 1, ctx)
+        if in_add:
+            d.unk_ltadd += range(n0, len(d.unk))
         d.add(rng.choice(['\n}', '\n  }', '\n}\n', ' %\n}']))
     elif k == 'cites':
         d.add(rng.choice(['\\parencite[see][p. 3]{k}', '\\footcite{k}', '\\cite*{k}',
